@@ -551,9 +551,17 @@ impl<W: WorldSpec> Engine<W> {
                         (am.ver_obs == 0 || dump.version as u64 == am.ver) && (am.slot_gens.is_empty() || am.slot_gens == gens)
                     };
                     let prefer_new = c.injected == Some(Injected::Drop);
+                    // 0 old, 1 new, 2 emptied (the old entities are gone, the world is still its old
+                    // self), 4 undecided, 3 torn
                     let choice = match (is_old, is_new) {
                         (true, false) => 0,
-                        (false, true) => 1,
+                        (false, true) => {
+                            if rows.is_empty() && !fits(self, src) {
+                                2
+                            } else {
+                                1
+                            }
+                        }
                         (true, true) => {
                             let (fo, fnw) = (fits(self, dst), fits(self, src));
                             if fo && fnw {
@@ -562,8 +570,10 @@ impl<W: WorldSpec> Engine<W> {
                                 0
                             } else if fnw {
                                 1
-                            } else {
+                            } else if rows.is_empty() {
                                 2
+                            } else {
+                                4
                             }
                         }
                         (false, false) if rows.is_empty() => 2,
@@ -575,11 +585,27 @@ impl<W: WorldSpec> Engine<W> {
                             self.adopt_arch(dst, src, ai, new_rows);
                             self.stats.inc("clone_from_fault_left_new");
                         }
-                        2 if rows.is_empty() => {
-                            self.adopt_arch(dst, src, ai, None);
+                        2 => {
+                            // emptied: every old entity of this archetype was removed, and the world
+                            // is still its old self - its stale handles must stay dead (C01), its
+                            // direct handles must have died (C09), nothing may be reissued (C08)
+                            let wrapping = self.cfg.wrapping;
+                            let olds: Vec<Bits> = self.ms[dst].by_arch[ai].iter().copied().collect();
+                            for b in olds {
+                                self.ms[dst].remove(b, wrapping);
+                            }
+                            #[cfg(feature = "events")]
+                            {
+                                // which events a half-done clone_from leaves behind is not prescribed
+                                let w = self.ws[dst].as_ref().unwrap();
+                                let (cev, dev) = (drv.created(w), drv.destroyed(w));
+                                let am = &mut self.ms[dst].archs[ai];
+                                am.created_ev = cev;
+                                am.destroyed_ev = dev;
+                            }
                             self.stats.inc("clone_from_fault_left_empty");
                         }
-                        2 => {
+                        4 => {
                             // same handles either way, no identified values, and the counters match
                             // neither side: keep the entities, forget the counters and the lineage
                             self.soften_arch(dst, ai);
